@@ -105,6 +105,12 @@ def make_case(rng, tier):
             V = rand_coeffs(rng, (n, n), -1, 1) + 2 * np.eye(n)
             lam = np.array(rng.sample([-2., -1., 0.5, 1.5, 3.], n))
             x[0, p] = V @ np.diag(lam) @ np.linalg.inv(V)
+        if rng.random() < 0.35:
+            # a complex Hermitian matrix polynomial: real eigenvalues at every order, genuinely complex eigenvectors
+            x = x + 1j * rand_coeffs(rng, x.shape, -1, 1)
+            x = (x + np.conj(np.swapaxes(x, 2, 3))) / 2
+            for p in range(P):
+                x[0, p] += np.diag(np.array(rng.sample([-2., -1., 0.5, 1.5, 3.], n)))
         c['x'] = x
     else:
         m, n = rng.choice([(2, 2), (3, 3), (3, 2), (2, 3)])
